@@ -1,0 +1,877 @@
+// Cadence - An extensible Statsd client for Rust!
+//
+// Licensed under the Apache License, Version 2.0 <LICENSE-APACHE or
+// http://www.apache.org/licenses/LICENSE-2.0> or the MIT license
+// <LICENSE-MIT or http://opensource.org/licenses/MIT>, at your
+// option. This file may not be copied, modified, or distributed
+// except according to those terms.
+
+//! Verification shim, compiled only with `--cfg cadence_verif`.
+//!
+//! Pass-through wrappers around the synchronisation primitives the crate uses
+//! (atomics, `Mutex`, `thread::spawn`, the crossbeam channel). Every wrapper
+//! performs the real operation; before it, it reports the operation to an
+//! installable [`Runtime`] which may suspend the calling thread (this is how an
+//! external controlled scheduler serialises threads and enumerates
+//! interleavings). With no runtime installed, or on a thread the runtime does
+//! not control, each wrapper is the original primitive plus one atomic load.
+//!
+//! Nothing here is part of the supported API of the crate.
+
+use std::panic::Location;
+use std::sync::OnceLock;
+
+pub use std::sync::atomic::Ordering;
+
+/// The kind of a reported operation.
+#[derive(Clone, Copy, Debug, PartialEq, Eq, Hash, PartialOrd, Ord)]
+pub enum OpKind {
+    AtomicLoad,
+    AtomicStore,
+    AtomicRmw,
+    AtomicCas,
+    MutexLock,
+    MutexTryLock,
+    MutexUnlock,
+    ChanTrySend,
+    ChanSend,
+    ChanTryRecv,
+    ChanRecv,
+    ThreadSpawn,
+    ThreadJoin,
+    ThreadYield,
+    CellRead,
+    CellWrite,
+}
+
+/// When a pending operation may be scheduled.
+pub enum Wait {
+    /// The operation never blocks.
+    No,
+    /// Enabled while the closure returns true. The closure is evaluated by the
+    /// runtime, possibly on another thread, and must not call into the runtime.
+    Until(Box<dyn Fn() -> bool + Send>),
+    /// Rendezvous send: enabled while more threads are pending in `ChanRecv` on
+    /// the same object than `taken()` reports, or while `or()` returns true.
+    ReceiverParked {
+        taken: Box<dyn Fn() -> usize + Send>,
+        or: Box<dyn Fn() -> bool + Send>,
+    },
+    /// Enabled once the model thread with this id has finished.
+    Thread(usize),
+}
+
+/// An operation about to be performed by the calling thread.
+pub struct Op {
+    pub kind: OpKind,
+    /// Address identifying the object operated on.
+    pub obj: usize,
+    pub order: Option<Ordering>,
+    pub wait: Wait,
+    pub loc: &'static Location<'static>,
+}
+
+/// Answer of the runtime to [`Runtime::point`].
+#[derive(Clone, Copy, Debug, PartialEq, Eq)]
+pub enum Go {
+    /// The calling thread is controlled and has been scheduled: perform the
+    /// operation now; it is guaranteed not to block.
+    Proceed,
+    /// The calling thread is not controlled: behave exactly like the original.
+    Free,
+    /// The execution is being torn down while this thread is unwinding:
+    /// perform the operation without blocking, or give up.
+    Aborting,
+}
+
+/// What an operation did, reported after it was performed (only on controlled
+/// threads). Used for happens-before bookkeeping and for traces.
+pub struct Done {
+    pub kind: OpKind,
+    pub obj: usize,
+    /// The ordering that took effect (for a failed compare-exchange the failure
+    /// ordering, and `kind` is then `AtomicLoad`).
+    pub order: Option<Ordering>,
+    pub success: bool,
+    pub loc: &'static Location<'static>,
+}
+
+/// A scheduler / tracer installed by a verification harness.
+pub trait Runtime: Send + Sync {
+    /// Called before an operation. May suspend the calling thread.
+    fn point(&self, op: Op) -> Go;
+    /// Called after an operation that `point` answered with `Go::Proceed`.
+    fn done(&self, done: Done);
+    /// Number of controlled threads currently pending in `ChanRecv` on `obj`.
+    fn parked_receivers(&self, obj: usize) -> usize;
+    /// Does the runtime control the calling thread?
+    fn controls_current_thread(&self) -> bool;
+    /// Start `body` on a new controlled thread and return its id.
+    fn spawn(&self, name: Option<String>, body: Box<dyn FnOnce() + Send + 'static>) -> usize;
+}
+
+static RUNTIME: OnceLock<&'static dyn Runtime> = OnceLock::new();
+
+/// Install the runtime. Returns false if one was installed already.
+pub fn install(rt: &'static dyn Runtime) -> bool {
+    RUNTIME.set(rt).is_ok()
+}
+
+/// The installed runtime, if any.
+pub fn runtime() -> Option<&'static dyn Runtime> {
+    RUNTIME.get().copied()
+}
+
+#[inline]
+fn point(kind: OpKind, obj: usize, order: Option<Ordering>, wait: Wait, loc: &'static Location<'static>) -> Go {
+    match runtime() {
+        None => Go::Free,
+        Some(rt) => rt.point(Op {
+            kind,
+            obj,
+            order,
+            wait,
+            loc,
+        }),
+    }
+}
+
+#[inline]
+fn done(go: Go, kind: OpKind, obj: usize, order: Option<Ordering>, success: bool, loc: &'static Location<'static>) {
+    if go == Go::Proceed {
+        if let Some(rt) = runtime() {
+            rt.done(Done {
+                kind,
+                obj,
+                order,
+                success,
+                loc,
+            });
+        }
+    }
+}
+
+/// Reports of accesses to an `UnsafeCell`, identified by its address.
+pub mod cell {
+    use super::{done, point, Location, OpKind, Wait};
+
+    /// The calling thread is about to read the cell at `addr`.
+    #[track_caller]
+    pub fn read(addr: usize) {
+        let loc = Location::caller();
+        let go = point(OpKind::CellRead, addr, None, Wait::No, loc);
+        done(go, OpKind::CellRead, addr, None, true, loc);
+    }
+
+    /// The calling thread is about to write the cell at `addr`.
+    #[track_caller]
+    pub fn write(addr: usize) {
+        let loc = Location::caller();
+        let go = point(OpKind::CellWrite, addr, None, Wait::No, loc);
+        done(go, OpKind::CellWrite, addr, None, true, loc);
+    }
+}
+
+pub mod sync {
+    pub use std::sync::{LockResult, PoisonError, TryLockError, TryLockResult};
+
+    pub mod atomic {
+        use super::super::{done, point, Location, OpKind, Wait};
+        pub use std::sync::atomic::Ordering;
+
+        macro_rules! common {
+            ($name:ident, $std:ty, $t:ty) => {
+                #[derive(Debug, Default)]
+                pub struct $name($std);
+
+                impl $name {
+                    pub const fn new(v: $t) -> Self {
+                        Self(<$std>::new(v))
+                    }
+
+                    fn addr(&self) -> usize {
+                        self as *const Self as usize
+                    }
+
+                    pub fn into_inner(self) -> $t {
+                        self.0.into_inner()
+                    }
+
+                    pub fn get_mut(&mut self) -> &mut $t {
+                        self.0.get_mut()
+                    }
+
+                    #[track_caller]
+                    pub fn load(&self, order: Ordering) -> $t {
+                        let loc = Location::caller();
+                        let go = point(OpKind::AtomicLoad, self.addr(), Some(order), Wait::No, loc);
+                        let v = self.0.load(order);
+                        done(go, OpKind::AtomicLoad, self.addr(), Some(order), true, loc);
+                        v
+                    }
+
+                    #[track_caller]
+                    pub fn store(&self, v: $t, order: Ordering) {
+                        let loc = Location::caller();
+                        let go = point(OpKind::AtomicStore, self.addr(), Some(order), Wait::No, loc);
+                        self.0.store(v, order);
+                        done(go, OpKind::AtomicStore, self.addr(), Some(order), true, loc);
+                    }
+
+                    #[track_caller]
+                    pub fn swap(&self, v: $t, order: Ordering) -> $t {
+                        let loc = Location::caller();
+                        let go = point(OpKind::AtomicRmw, self.addr(), Some(order), Wait::No, loc);
+                        let r = self.0.swap(v, order);
+                        done(go, OpKind::AtomicRmw, self.addr(), Some(order), true, loc);
+                        r
+                    }
+
+                    #[track_caller]
+                    pub fn compare_exchange(
+                        &self,
+                        current: $t,
+                        new: $t,
+                        success: Ordering,
+                        failure: Ordering,
+                    ) -> Result<$t, $t> {
+                        let loc = Location::caller();
+                        let go = point(OpKind::AtomicCas, self.addr(), Some(success), Wait::No, loc);
+                        let r = self.0.compare_exchange(current, new, success, failure);
+                        match r {
+                            Ok(_) => done(go, OpKind::AtomicRmw, self.addr(), Some(success), true, loc),
+                            Err(_) => done(go, OpKind::AtomicLoad, self.addr(), Some(failure), false, loc),
+                        }
+                        r
+                    }
+
+                    /// Under a runtime this never fails spuriously (it is the strong
+                    /// compare-exchange), so that executions are reproducible.
+                    #[track_caller]
+                    pub fn compare_exchange_weak(
+                        &self,
+                        current: $t,
+                        new: $t,
+                        success: Ordering,
+                        failure: Ordering,
+                    ) -> Result<$t, $t> {
+                        self.compare_exchange(current, new, success, failure)
+                    }
+
+                    #[track_caller]
+                    pub fn fetch_update<F>(&self, set_order: Ordering, fetch_order: Ordering, mut f: F) -> Result<$t, $t>
+                    where
+                        F: FnMut($t) -> Option<$t>,
+                    {
+                        let mut prev = self.load(fetch_order);
+                        while let Some(next) = f(prev) {
+                            match self.compare_exchange_weak(prev, next, set_order, fetch_order) {
+                                x @ Ok(_) => return x,
+                                Err(next_prev) => prev = next_prev,
+                            }
+                        }
+                        Err(prev)
+                    }
+                }
+
+                impl From<$t> for $name {
+                    fn from(v: $t) -> Self {
+                        Self::new(v)
+                    }
+                }
+            };
+        }
+
+        macro_rules! rmw {
+            ($name:ident, $t:ty, $($op:ident),*) => {
+                impl $name {
+                    $(
+                        #[track_caller]
+                        pub fn $op(&self, v: $t, order: Ordering) -> $t {
+                            let loc = Location::caller();
+                            let go = point(OpKind::AtomicRmw, self.addr(), Some(order), Wait::No, loc);
+                            let r = self.0.$op(v, order);
+                            done(go, OpKind::AtomicRmw, self.addr(), Some(order), true, loc);
+                            r
+                        }
+                    )*
+                }
+            };
+        }
+
+        common!(AtomicBool, std::sync::atomic::AtomicBool, bool);
+        common!(AtomicU64, std::sync::atomic::AtomicU64, u64);
+        common!(AtomicUsize, std::sync::atomic::AtomicUsize, usize);
+        rmw!(AtomicBool, bool, fetch_and, fetch_or, fetch_xor, fetch_nand);
+        rmw!(AtomicU64, u64, fetch_add, fetch_sub, fetch_and, fetch_or, fetch_xor, fetch_max, fetch_min);
+        rmw!(AtomicUsize, usize, fetch_add, fetch_sub, fetch_and, fetch_or, fetch_xor, fetch_max, fetch_min);
+    }
+
+    use super::{done, point, Go, Location, OpKind, Wait};
+    use std::fmt;
+    use std::ops::{Deref, DerefMut};
+    use std::sync::atomic::{AtomicBool as StdAtomicBool, Ordering as StdOrdering};
+    use std::sync::Arc;
+
+    /// `std::sync::Mutex` plus a flag telling a runtime whether it is held.
+    #[derive(Default)]
+    pub struct Mutex<T> {
+        held: Arc<StdAtomicBool>,
+        inner: std::sync::Mutex<T>,
+    }
+
+    pub struct MutexGuard<'a, T> {
+        // `Option` so that `Drop` can release the real guard before reporting.
+        guard: Option<std::sync::MutexGuard<'a, T>>,
+        owner: &'a Mutex<T>,
+        go: Go,
+    }
+
+    impl<T> Mutex<T> {
+        pub fn new(t: T) -> Self {
+            Mutex {
+                held: Arc::new(StdAtomicBool::new(false)),
+                inner: std::sync::Mutex::new(t),
+            }
+        }
+
+        fn addr(&self) -> usize {
+            Arc::as_ptr(&self.held) as usize
+        }
+
+        fn wrap<'a>(&'a self, guard: std::sync::MutexGuard<'a, T>, go: Go) -> MutexGuard<'a, T> {
+            self.held.store(true, StdOrdering::SeqCst);
+            MutexGuard {
+                guard: Some(guard),
+                owner: self,
+                go,
+            }
+        }
+
+        #[track_caller]
+        pub fn lock(&self) -> LockResult<MutexGuard<'_, T>> {
+            let loc = Location::caller();
+            let held = self.held.clone();
+            let wait = Wait::Until(Box::new(move || !held.load(StdOrdering::SeqCst)));
+            let go = point(OpKind::MutexLock, self.addr(), None, wait, loc);
+            let res = match self.inner.lock() {
+                Ok(g) => Ok(self.wrap(g, go)),
+                Err(e) => Err(PoisonError::new(self.wrap(e.into_inner(), go))),
+            };
+            done(go, OpKind::MutexLock, self.addr(), None, true, loc);
+            res
+        }
+
+        #[track_caller]
+        pub fn try_lock(&self) -> TryLockResult<MutexGuard<'_, T>> {
+            let loc = Location::caller();
+            let go = point(OpKind::MutexTryLock, self.addr(), None, Wait::No, loc);
+            let res = match self.inner.try_lock() {
+                Ok(g) => Ok(self.wrap(g, go)),
+                Err(TryLockError::Poisoned(e)) => Err(TryLockError::Poisoned(PoisonError::new(
+                    self.wrap(e.into_inner(), go),
+                ))),
+                Err(TryLockError::WouldBlock) => Err(TryLockError::WouldBlock),
+            };
+            let ok = !matches!(res, Err(TryLockError::WouldBlock));
+            done(go, OpKind::MutexTryLock, self.addr(), None, ok, loc);
+            res
+        }
+
+        pub fn into_inner(self) -> LockResult<T> {
+            self.inner.into_inner()
+        }
+
+        pub fn get_mut(&mut self) -> LockResult<&mut T> {
+            self.inner.get_mut()
+        }
+
+        pub fn is_poisoned(&self) -> bool {
+            self.inner.is_poisoned()
+        }
+    }
+
+    impl<T> From<T> for Mutex<T> {
+        fn from(t: T) -> Self {
+            Mutex::new(t)
+        }
+    }
+
+    impl<T: fmt::Debug> fmt::Debug for Mutex<T> {
+        fn fmt(&self, f: &mut fmt::Formatter<'_>) -> fmt::Result {
+            self.inner.fmt(f)
+        }
+    }
+
+    impl<T> Deref for MutexGuard<'_, T> {
+        type Target = T;
+
+        fn deref(&self) -> &T {
+            self.guard.as_ref().unwrap()
+        }
+    }
+
+    impl<T> DerefMut for MutexGuard<'_, T> {
+        fn deref_mut(&mut self) -> &mut T {
+            self.guard.as_mut().unwrap()
+        }
+    }
+
+    impl<T: fmt::Debug> fmt::Debug for MutexGuard<'_, T> {
+        fn fmt(&self, f: &mut fmt::Formatter<'_>) -> fmt::Result {
+            (**self).fmt(f)
+        }
+    }
+
+    impl<T> Drop for MutexGuard<'_, T> {
+        fn drop(&mut self) {
+            // Report the release while the lock is still held (so that the
+            // happens-before edge is published before anyone can acquire it),
+            // then release the real lock and clear the flag.
+            done(
+                self.go,
+                OpKind::MutexUnlock,
+                self.owner.addr(),
+                None,
+                true,
+                Location::caller(),
+            );
+            self.guard.take();
+            self.owner.held.store(false, StdOrdering::SeqCst);
+        }
+    }
+}
+
+pub mod thread {
+    use super::{point, runtime, Go, Location, OpKind, Wait};
+    use std::any::Any;
+    use std::io;
+    use std::panic::{self, AssertUnwindSafe};
+    use std::sync::{Arc, Mutex};
+
+    pub use std::thread::{current, park, sleep, Result, Thread, ThreadId};
+
+    type Packet<T> = Arc<Mutex<Option<std::result::Result<T, Box<dyn Any + Send + 'static>>>>>;
+
+    enum Repr<T> {
+        Std(std::thread::JoinHandle<T>),
+        Model { tid: usize, packet: Packet<T> },
+    }
+
+    pub struct JoinHandle<T>(Repr<T>);
+
+    impl<T> JoinHandle<T> {
+        /// The id the runtime gave the thread, if it is a controlled one.
+        pub fn model_id(&self) -> Option<usize> {
+            match &self.0 {
+                Repr::Std(_) => None,
+                Repr::Model { tid, .. } => Some(*tid),
+            }
+        }
+
+        #[track_caller]
+        pub fn join(self) -> Result<T> {
+            match self.0 {
+                Repr::Std(h) => h.join(),
+                Repr::Model { tid, packet } => {
+                    let loc = Location::caller();
+                    let go = point(OpKind::ThreadJoin, tid, None, Wait::Thread(tid), loc);
+                    super::done(go, OpKind::ThreadJoin, tid, None, true, loc);
+                    let taken = packet.lock().unwrap_or_else(|e| e.into_inner()).take();
+                    match taken {
+                        Some(r) => r,
+                        None => Err(Box::new("thread did not run to completion")),
+                    }
+                }
+            }
+        }
+
+        pub fn is_finished(&self) -> bool {
+            match &self.0 {
+                Repr::Std(h) => h.is_finished(),
+                Repr::Model { packet, .. } => packet.lock().unwrap_or_else(|e| e.into_inner()).is_some(),
+            }
+        }
+    }
+
+    fn spawn_named<F, T>(name: Option<String>, stack: Option<usize>, f: F) -> io::Result<JoinHandle<T>>
+    where
+        F: FnOnce() -> T + Send + 'static,
+        T: Send + 'static,
+    {
+        if let Some(rt) = runtime() {
+            if rt.controls_current_thread() {
+                let loc = Location::caller();
+                let go = point(OpKind::ThreadSpawn, 0, None, Wait::No, loc);
+                let packet: Packet<T> = Arc::new(Mutex::new(None));
+                let theirs = packet.clone();
+                let body = Box::new(move || {
+                    let r = panic::catch_unwind(AssertUnwindSafe(f));
+                    let failed = r.is_err();
+                    *theirs.lock().unwrap_or_else(|e| e.into_inner()) = Some(r);
+                    if failed {
+                        // Let the runtime see that the thread ended by unwinding.
+                        panic::resume_unwind(Box::new(ThreadPanicked));
+                    }
+                });
+                let tid = rt.spawn(name, body);
+                super::done(go, OpKind::ThreadSpawn, tid, None, true, loc);
+                return Ok(JoinHandle(Repr::Model { tid, packet }));
+            }
+        }
+        let mut b = std::thread::Builder::new();
+        if let Some(n) = name {
+            b = b.name(n);
+        }
+        if let Some(s) = stack {
+            b = b.stack_size(s);
+        }
+        b.spawn(f).map(|h| JoinHandle(Repr::Std(h)))
+    }
+
+    /// Payload with which a controlled thread ends after its body panicked (the
+    /// original payload is kept for `JoinHandle::join`).
+    pub struct ThreadPanicked;
+
+    #[track_caller]
+    pub fn spawn<F, T>(f: F) -> JoinHandle<T>
+    where
+        F: FnOnce() -> T + Send + 'static,
+        T: Send + 'static,
+    {
+        spawn_named(None, None, f).expect("failed to spawn thread")
+    }
+
+    #[derive(Debug, Default)]
+    pub struct Builder {
+        name: Option<String>,
+        stack_size: Option<usize>,
+    }
+
+    impl Builder {
+        pub fn new() -> Self {
+            Self::default()
+        }
+
+        pub fn name(mut self, name: String) -> Self {
+            self.name = Some(name);
+            self
+        }
+
+        pub fn stack_size(mut self, size: usize) -> Self {
+            self.stack_size = Some(size);
+            self
+        }
+
+        #[track_caller]
+        pub fn spawn<F, T>(self, f: F) -> io::Result<JoinHandle<T>>
+        where
+            F: FnOnce() -> T + Send + 'static,
+            T: Send + 'static,
+        {
+            spawn_named(self.name, self.stack_size, f)
+        }
+    }
+
+    #[track_caller]
+    pub fn yield_now() {
+        let loc = Location::caller();
+        if point(OpKind::ThreadYield, 0, None, Wait::No, loc) == Go::Free {
+            std::thread::yield_now();
+        }
+    }
+}
+
+/// Wrappers around the real `crossbeam_channel` channel.
+///
+/// Buffered and unbounded channels always run the real crossbeam code. A
+/// zero-capacity (rendezvous) channel does so on uncontrolled threads; on
+/// controlled threads a receiver waits inside the runtime rather than inside
+/// crossbeam, so the hand-over is modelled here: `try_send` succeeds exactly
+/// when a controlled thread is pending in `recv` on the channel and has not yet
+/// been paired with another message.
+pub mod channel {
+    use super::{done, point, runtime, Go, Location, OpKind, Wait};
+    use std::collections::VecDeque;
+    use std::fmt;
+    use std::sync::atomic::{AtomicUsize, Ordering};
+    use std::sync::{Arc, Mutex};
+
+    pub use crossbeam_channel::{RecvError, SendError, TryRecvError, TrySendError};
+
+    struct Meta<T> {
+        senders: AtomicUsize,
+        receivers: AtomicUsize,
+        rendezvous: bool,
+        slot: Mutex<VecDeque<T>>,
+    }
+
+    impl<T> Meta<T> {
+        fn slot_len(&self) -> usize {
+            self.slot.lock().unwrap_or_else(|e| e.into_inner()).len()
+        }
+    }
+
+    pub struct Sender<T> {
+        inner: crossbeam_channel::Sender<T>,
+        meta: Arc<Meta<T>>,
+    }
+
+    pub struct Receiver<T> {
+        inner: crossbeam_channel::Receiver<T>,
+        meta: Arc<Meta<T>>,
+    }
+
+    fn wrap<T>(pair: (crossbeam_channel::Sender<T>, crossbeam_channel::Receiver<T>), cap: Option<usize>) -> (Sender<T>, Receiver<T>) {
+        let meta = Arc::new(Meta {
+            senders: AtomicUsize::new(1),
+            receivers: AtomicUsize::new(1),
+            rendezvous: cap == Some(0),
+            slot: Mutex::new(VecDeque::new()),
+        });
+        (
+            Sender {
+                inner: pair.0,
+                meta: meta.clone(),
+            },
+            Receiver { inner: pair.1, meta },
+        )
+    }
+
+    pub fn bounded<T>(cap: usize) -> (Sender<T>, Receiver<T>) {
+        wrap(crossbeam_channel::bounded(cap), Some(cap))
+    }
+
+    pub fn unbounded<T>() -> (Sender<T>, Receiver<T>) {
+        wrap(crossbeam_channel::unbounded(), None)
+    }
+
+    impl<T> Clone for Sender<T> {
+        fn clone(&self) -> Self {
+            self.meta.senders.fetch_add(1, Ordering::SeqCst);
+            Sender {
+                inner: self.inner.clone(),
+                meta: self.meta.clone(),
+            }
+        }
+    }
+
+    impl<T> Drop for Sender<T> {
+        fn drop(&mut self) {
+            self.meta.senders.fetch_sub(1, Ordering::SeqCst);
+        }
+    }
+
+    impl<T> Clone for Receiver<T> {
+        fn clone(&self) -> Self {
+            self.meta.receivers.fetch_add(1, Ordering::SeqCst);
+            Receiver {
+                inner: self.inner.clone(),
+                meta: self.meta.clone(),
+            }
+        }
+    }
+
+    impl<T> Drop for Receiver<T> {
+        fn drop(&mut self) {
+            self.meta.receivers.fetch_sub(1, Ordering::SeqCst);
+        }
+    }
+
+    impl<T> fmt::Debug for Sender<T> {
+        fn fmt(&self, f: &mut fmt::Formatter<'_>) -> fmt::Result {
+            f.pad("Sender { .. }")
+        }
+    }
+
+    impl<T> fmt::Debug for Receiver<T> {
+        fn fmt(&self, f: &mut fmt::Formatter<'_>) -> fmt::Result {
+            f.pad("Receiver { .. }")
+        }
+    }
+
+    impl<T: Send + 'static> Sender<T> {
+        fn addr(&self) -> usize {
+            Arc::as_ptr(&self.meta) as *const u8 as usize
+        }
+
+        #[track_caller]
+        pub fn try_send(&self, msg: T) -> Result<(), TrySendError<T>> {
+            let loc = Location::caller();
+            let go = point(OpKind::ChanTrySend, self.addr(), None, Wait::No, loc);
+            let res = if self.meta.rendezvous && go == Go::Proceed {
+                let parked = runtime().map(|rt| rt.parked_receivers(self.addr())).unwrap_or(0);
+                let mut slot = self.meta.slot.lock().unwrap_or_else(|e| e.into_inner());
+                if self.meta.receivers.load(Ordering::SeqCst) == 0 {
+                    Err(TrySendError::Disconnected(msg))
+                } else if parked > slot.len() {
+                    slot.push_back(msg);
+                    Ok(())
+                } else {
+                    Err(TrySendError::Full(msg))
+                }
+            } else {
+                self.inner.try_send(msg)
+            };
+            done(go, OpKind::ChanTrySend, self.addr(), None, res.is_ok(), loc);
+            res
+        }
+
+        #[track_caller]
+        pub fn send(&self, msg: T) -> Result<(), SendError<T>> {
+            let loc = Location::caller();
+            let meta = self.meta.clone();
+            let gone = move || meta.receivers.load(Ordering::SeqCst) == 0;
+            let wait = if self.meta.rendezvous {
+                let meta = self.meta.clone();
+                Wait::ReceiverParked {
+                    taken: Box::new(move || meta.slot_len()),
+                    or: Box::new(gone),
+                }
+            } else {
+                let tx = self.inner.clone();
+                Wait::Until(Box::new(move || !tx.is_full() || gone()))
+            };
+            let go = point(OpKind::ChanSend, self.addr(), None, wait, loc);
+            let res = match go {
+                Go::Free => self.inner.send(msg),
+                Go::Proceed if self.meta.rendezvous => {
+                    if self.meta.receivers.load(Ordering::SeqCst) == 0 {
+                        Err(SendError(msg))
+                    } else {
+                        self.meta.slot.lock().unwrap_or_else(|e| e.into_inner()).push_back(msg);
+                        Ok(())
+                    }
+                }
+                Go::Proceed | Go::Aborting => match self.inner.try_send(msg) {
+                    Ok(()) => Ok(()),
+                    Err(TrySendError::Disconnected(m)) => Err(SendError(m)),
+                    // Only reachable while an execution is being torn down.
+                    Err(TrySendError::Full(m)) => Err(SendError(m)),
+                },
+            };
+            done(go, OpKind::ChanSend, self.addr(), None, res.is_ok(), loc);
+            res
+        }
+
+        pub fn is_empty(&self) -> bool {
+            self.inner.is_empty() && self.meta.slot_len() == 0
+        }
+
+        pub fn is_full(&self) -> bool {
+            self.inner.is_full()
+        }
+
+        pub fn len(&self) -> usize {
+            self.inner.len() + self.meta.slot_len()
+        }
+
+        pub fn capacity(&self) -> Option<usize> {
+            self.inner.capacity()
+        }
+    }
+
+    impl<T: Send + 'static> Receiver<T> {
+        fn addr(&self) -> usize {
+            Arc::as_ptr(&self.meta) as *const u8 as usize
+        }
+
+        fn take(&self) -> Result<T, TryRecvError> {
+            if let Some(v) = self.meta.slot.lock().unwrap_or_else(|e| e.into_inner()).pop_front() {
+                return Ok(v);
+            }
+            match self.inner.try_recv() {
+                Err(TryRecvError::Empty) if self.meta.senders.load(Ordering::SeqCst) == 0 => {
+                    Err(TryRecvError::Disconnected)
+                }
+                other => other,
+            }
+        }
+
+        #[track_caller]
+        pub fn try_recv(&self) -> Result<T, TryRecvError> {
+            let loc = Location::caller();
+            let go = point(OpKind::ChanTryRecv, self.addr(), None, Wait::No, loc);
+            let res = match go {
+                Go::Free => self.inner.try_recv(),
+                _ => self.take(),
+            };
+            done(go, OpKind::ChanTryRecv, self.addr(), None, res.is_ok(), loc);
+            res
+        }
+
+        #[track_caller]
+        pub fn recv(&self) -> Result<T, RecvError> {
+            let loc = Location::caller();
+            let rx = self.inner.clone();
+            let meta = self.meta.clone();
+            let wait = Wait::Until(Box::new(move || {
+                !rx.is_empty() || meta.slot_len() > 0 || meta.senders.load(Ordering::SeqCst) == 0
+            }));
+            let go = point(OpKind::ChanRecv, self.addr(), None, wait, loc);
+            let res = match go {
+                Go::Free => self.inner.recv(),
+                _ => self.take().map_err(|_| RecvError),
+            };
+            done(go, OpKind::ChanRecv, self.addr(), None, res.is_ok(), loc);
+            res
+        }
+
+        pub fn iter(&self) -> Iter<'_, T> {
+            Iter { receiver: self }
+        }
+
+        pub fn try_iter(&self) -> TryIter<'_, T> {
+            TryIter { receiver: self }
+        }
+
+        pub fn is_empty(&self) -> bool {
+            self.inner.is_empty() && self.meta.slot_len() == 0
+        }
+
+        pub fn is_full(&self) -> bool {
+            self.inner.is_full()
+        }
+
+        pub fn len(&self) -> usize {
+            self.inner.len() + self.meta.slot_len()
+        }
+
+        pub fn capacity(&self) -> Option<usize> {
+            self.inner.capacity()
+        }
+    }
+
+    pub struct Iter<'a, T> {
+        receiver: &'a Receiver<T>,
+    }
+
+    impl<T: Send + 'static> Iterator for Iter<'_, T> {
+        type Item = T;
+
+        fn next(&mut self) -> Option<T> {
+            self.receiver.recv().ok()
+        }
+    }
+
+    pub struct TryIter<'a, T> {
+        receiver: &'a Receiver<T>,
+    }
+
+    impl<T: Send + 'static> Iterator for TryIter<'_, T> {
+        type Item = T;
+
+        fn next(&mut self) -> Option<T> {
+            self.receiver.try_recv().ok()
+        }
+    }
+
+    impl<'a, T: Send + 'static> IntoIterator for &'a Receiver<T> {
+        type Item = T;
+        type IntoIter = Iter<'a, T>;
+
+        fn into_iter(self) -> Iter<'a, T> {
+            self.iter()
+        }
+    }
+}
